@@ -3295,6 +3295,38 @@ func ruleFileVerbatim(c *Ctx, r *Rep) {
 			return true
 		})
 		r.OK("queryfile:downstream", fileAssign.Pos(), "no assignment to %s downstream of the file branch", textObj.Name())
+		// the query given as an argument keeps its beginning: positions are reported against the text the user wrote, so
+		// nothing may be removed in front of the first token (TrimSpace drops leading blank lines: an error on the fourth
+		// line of the argument is reported on the second)
+		prefixRemoving := map[string]bool{"strings.TrimSpace": true, "strings.TrimLeft": true, "strings.TrimLeftFunc": true, "strings.TrimPrefix": true,
+			"strings.Trim": true, "strings.TrimFunc": true, "strings.Fields": true, "strings.CutPrefix": true}
+		suffixOnly := map[string]bool{"strings.TrimRight": true, "strings.TrimRightFunc": true, "strings.TrimSuffix": true}
+		ast.Inspect(fd.Body, func(q ast.Node) bool {
+			as, ok := q.(*ast.AssignStmt)
+			if !ok || as == fileAssign || len(as.Lhs) != len(as.Rhs) {
+				return true
+			}
+			for i, lhs := range as.Lhs {
+				id, ok := lhs.(*ast.Ident)
+				if !ok || info.ObjectOf(id) != textObj {
+					continue
+				}
+				rhs := unparen(as.Rhs[i])
+				key := "queryarg:" + c.Src(rhs)
+				call, isCall := rhs.(*ast.CallExpr)
+				switch {
+				case !isCall:
+					r.OK(key, rhs.Pos(), "the query text is `%s` as given", c.Src(rhs))
+				case prefixRemoving[calleeName(info, call)]:
+					r.Bad(key, rhs.Pos(), "the query given as an argument goes through %s, which removes what precedes the first token: with `gojq $'\\n\\n.a |\\n.b c'` the error on the fourth line is reported on line 2, and the column of an error on the first line ignores the leading blanks the user typed", calleeName(info, call))
+				case suffixOnly[calleeName(info, call)]:
+					r.OK(key, rhs.Pos(), "the query text only loses trailing characters (%s): no reported position moves", calleeName(info, call))
+				default:
+					r.Undecided(key, rhs.Pos(), "the query text is transformed by %s, which this rule does not know to preserve the beginning of the text", calleeName(info, call))
+				}
+			}
+			return true
+		})
 	}
 }
 
